@@ -65,6 +65,26 @@ int main(int argc, char** argv) {
           Vector_<Vec3> JSU; m.multiplyByStationJacobian(s, tb, ts, s.getU(), JSU); e = 0; sc = 0;
           for (int i = 0; i < nt; ++i) { Vec3 v = m.getMobilizedBody(tb[i]).findStationVelocityInGround(s, ts[i]); e += (v - JSU[i]).norm(); sc += v.norm(); }
           chk("C04", "JS*u=reported-station-velocities", e, sc, seed, k, rs);
+          // bias terms of the task Jacobians: the station / frame accelerations the realized state reports are J*udot + Jdot*u
+          { rs.sys.realize(s, Stage::Acceleration); const Vector& ud = s.getUDot();
+            Vector_<Vec3> JSud, JSDu; m.multiplyByStationJacobian(s, tb, ts, ud, JSud); m.calcBiasForStationJacobian(s, tb, ts, JSDu);
+            Vector_<SpatialVec> JFud, JFDu; m.multiplyByFrameJacobian(s, tb, ts, ud, JFud); m.calcBiasForFrameJacobian(s, tb, ts, JFDu);
+            Real es = 0, ef = 0, ss = 0;
+            for (int i = 0; i < nt; ++i) { const MobilizedBody& mb = m.getMobilizedBody(tb[i]);
+                Vec3 a = mb.findStationAccelerationInGround(s, ts[i]); SpatialVec A = mb.getBodyAcceleration(s);
+                es += (a - JSud[i] - JSDu[i]).norm(); ss += a.norm();
+                ef += (A[0] - JFud[i][0] - JFDu[i][0]).norm() + (a - JFud[i][1] - JFDu[i][1]).norm();
+                // single-task signatures agree with the multi-task ones
+                Vec3 b1 = m.calcBiasForStationJacobian(s, tb[i], ts[i]); SpatialVec b2 = m.calcBiasForFrameJacobian(s, tb[i], ts[i]);
+                es += (b1 - JSDu[i]).norm(); ef += (b2 - JFDu[i]).norm(); }
+            // packed (Vector) signatures agree with the Vec3 / SpatialVec ones
+            { Vector vs, vf, vb; m.calcBiasForStationJacobian(s, tb, ts, vs); m.calcBiasForFrameJacobian(s, tb, ts, vf); m.calcBiasForSystemJacobian(s, vb);
+              Vector_<SpatialVec> bsys; m.calcBiasForSystemJacobian(s, bsys); Real ev = 0;
+              for (int i = 0; i < nt; ++i) for (int c = 0; c < 3; ++c) ev += std::abs(vs[3 * i + c] - JSDu[i][c]) + std::abs(vf[6 * i + c] - JFDu[i][0][c]) + std::abs(vf[6 * i + 3 + c] - JFDu[i][1][c]);
+              for (int b = 0; b < NB; ++b) for (int c = 0; c < 3; ++c) ev += std::abs(vb[6 * b + c] - bsys[b][0][c]) + std::abs(vb[6 * b + 3 + c] - bsys[b][1][c]);
+              chk("C04", "packed-bias-signatures=vector-signatures", ev, ss, seed, k, rs); }
+            chk("C04", "station-acc=JS*udot+JSdot*u", es, ss, seed, k, rs);
+            chk("C04", "frame-acc=JF*udot+JFdot*u", ef, ss, seed, k, rs); }
           Matrix JS; m.calcStationJacobian(s, tb, ts, JS); Vector JSm = JS * W; e = 0; for (int i = 0; i < nt; ++i) for (int c = 0; c < 3; ++c) e += std::abs(JSm[3 * i + c] - JSW[i][c]);
           chk("C04", "explicit-station-J*w=operator", e, JSm.norm(), seed, k, rs);
         }
